@@ -64,17 +64,7 @@ pub(crate) mod model {
             self.slots[*k as usize].as_mut()
         }
         fn s_insert(&mut self, k: SupportedRegister, v: V) -> Option<V> {
-            // Scan with a concrete index: a store through `&mut slots[symbolic]` makes the
-            // model checker update the whole array bytewise, which is very slow for wide values.
-            let want = k as usize;
-            let mut j = 0;
-            while j < SLOTS {
-                if j == want {
-                    return std::mem::replace(&mut self.slots[j], Some(v));
-                }
-                j += 1;
-            }
-            unreachable!()
+            std::mem::replace(&mut self.slots[k as usize], Some(v))
         }
         fn s_cap(&self) -> usize {
             SLOTS
